@@ -33,10 +33,14 @@ FAMILIES = {
                                 solve_time=0.45, k=4),
 }
 # four terminals: every terminal's boundary condition sums THREE other currents (order-sensitive rounding: a non-dyadic split)
-SPLIT = {"source": 4.2, "drain": -0.7, "top": -1.4, "bottom": -2.1}
+# (the field is constant: the dA/dt of a field ramp dominates the right-hand side of the potential equation and rounds a
+# last-bit change of the boundary current away; generic values: a 1:2:3 split sums exactly in every order; the constant currents are handed over as numpy scalars and the ramp
+# lasts longer than the run — the built-in sum() of Python >= 3.12 compensates rounding for plain floats, so only numpy
+# scalars, which the solver's own time variable turns every time-dependent current into, make a sum order-sensitive)
+SPLIT = {"source": 5.3, "drain": -1.7, "top": -2.0, "bottom": -1.6}
 CROSS_FAMILIES = {
-    "cross/constant-split": dict(dev="cross", currents=SPLIT, field=0.3, adaptive=True, dt=2e-3, dt_max=4e-3, solve_time=0.05, k=5),
-    "cross/ramp-split": dict(dev="cross", currents=SPLIT, current_ramp=0.04, field=0.3, field_ramp=0.05, adaptive=True, dt=2e-3, dt_max=4e-3,
+    "cross/constant-split": dict(dev="cross", currents=SPLIT, numpy_scalars=True, field=0.3, adaptive=True, dt=2e-3, dt_max=4e-3, solve_time=0.05, k=5),
+    "cross/ramp-split": dict(dev="cross", currents=SPLIT, current_ramp=0.2, field=0.3, adaptive=True, dt=2e-3, dt_max=4e-3,
                              solve_time=0.05, k=4),
 }
 CROSS_THREADS_QUICK = [2, 5, 8, 16]
@@ -144,7 +148,7 @@ def child(args):
     obs.update(_mesh_obs(dev2.mesh, "mesh/fresh"))
     kw = twin.drive(tdgl, a)
     if a.get("currents"):
-        base = dict(a["currents"])
+        base = {k: (np.float64(v) if a.get("numpy_scalars") else v) for k, v in a["currents"].items()}
         if a.get("current_ramp"):
             kw["terminal_currents"] = lambda t, base=base, T=a["current_ramp"]: {k: v * min(1.0, t / T) for k, v in base.items()}
         else:
